@@ -81,7 +81,16 @@ func NewLevelListFromDocument(fs storage.FileSystem, dataOwnership kv.DataOwners
 }
 
 func (ll *LevelList) Get(key []byte) (kv.Entry, error) {
+	// Level 0 tables may overlap and are visited in flush order, so the newest
+	// version among them is the one with the highest sequence number. Deeper
+	// levels only hold older data: the first hit there wins.
+	l0Tables := ll.At(0).tables
+	var newest kv.Entry
 	for t := range ll.AllTablesForKey(key) {
+		inL0 := l0Tables.Has(t)
+		if newest != nil && !inL0 {
+			break
+		}
 		v, err := t.Get(key)
 		if err != nil {
 			if err == kv.ErrNotFound {
@@ -89,7 +98,15 @@ func (ll *LevelList) Get(key []byte) (kv.Entry, error) {
 			}
 			return nil, fmt.Errorf("table %#v, %w", t, err)
 		}
-		return v, nil
+		if !inL0 {
+			return v, nil
+		}
+		if newest == nil || v.SeqNum() > newest.SeqNum() {
+			newest = v
+		}
+	}
+	if newest != nil {
+		return newest, nil
 	}
 	return nil, kv.ErrNotFound
 }
